@@ -22,12 +22,18 @@ Notation valid := (Valid.valid fmt_ok sdefs).
 Definition num_leaf (p : schema) : Prop :=
   exists c, p = Sch c [] None false None [] [] /\ c_types c = [SNumber] /\ c_ref c = None /\ c_enum c = None /\ c_default c = None /\ c_mult c = None.
 
-(* arrays of plain strings with any item-count limits *)
-Definition plain_str (it : schema) : Prop :=
-  exists c, it = Sch c [] None false None [] [] /\ c_types c = [SString] /\ c_ref c = None /\ c_enum c = None /\ c_default c = None /\ c_format c = None /\
-            c_min_len c = 0 /\ c_max_len c = 0 /\ c_pattern c = None.
-Definition arr_leaf (p : schema) : Prop :=
-  exists c it, p = Sch c [] None false (Some it) [] [] /\ c_types c = [SArray] /\ c_ref c = None /\ c_enum c = None /\ c_default c = None /\ plain_str it.
+(* arrays of plain strings, numbers or booleans (items without keywords of their own) with any item-count limits *)
+Inductive ikind := IStr | INum | IBool.
+Definition plain_item (k : ikind) (it : schema) : Prop :=
+  exists c, it = Sch c [] None false None [] [] /\ c_ref c = None /\ c_enum c = None /\ c_default c = None /\ c_format c = None /\
+            c_min_len c = 0 /\ c_max_len c = 0 /\ c_pattern c = None /\ c_mult c = None /\ c_bounds c = mkBounds None None None None /\
+            c_types c = [match k with IStr => SString | INum => SNumber | IBool => SBoolean end].
+Definition item_go (k : ikind) : gty := match k with IStr => TString | INum => TFloat | IBool => TBool end.
+Definition item_spec (k : ikind) (y : json) : bool :=
+  match k, y with IStr, JStr _ | INum, JNum _ | IBool, JBool _ => true | _, _ => false end.
+Definition arr_leaf_k (k : ikind) (p : schema) : Prop :=
+  exists c it, p = Sch c [] None false (Some it) [] [] /\ c_types c = [SArray] /\ c_ref c = None /\ c_enum c = None /\ c_default c = None /\ plain_item k it.
+Definition arr_leaf (p : schema) : Prop := exists k, arr_leaf_k k p.
 
 (* string enums (C08): a typed string schema that lists its values *)
 Definition enum_leaf (p : schema) : Prop :=
@@ -65,82 +71,86 @@ Qed.
 (* the items of an array value in a document: none is null *)
 Definition arr_value (x : json) : Prop := forall l, x = JArr l -> forall y, In y l -> y <> JNull.
 
-Lemma plain_str_is_leaf it : plain_str it -> str_leaf it.
-Proof. intros (c & -> & Ht & Hr & He & Hd & Hf & _). exists c. repeat split; assumption. Qed.
+Lemma dec_tstring fd y : dec (S fd) TString y = match y with JStr s0 => Ok (GS s0) | JNull => Ok (GS []) | _ => Err end.
+Proof. reflexivity. Qed.
 
-Lemma gen_arr_leaf f self sc p ty bp : arr_leaf p -> gen (S f) MInline self false p sc = Done (ty, bp) -> ty = TSlice true TString /\ bp = c_bounds (s_con p).
+Lemma dec_item fd k y : y <> JNull -> dec (S fd) (item_go k) y =
+  match k, y with IStr, JStr s0 => Ok (GS s0) | INum, JNum n => Ok (GF (nq n)) | IBool, JBool b => Ok (GB b) | _, _ => Err end.
+Proof. intros Hy. destruct k, y; try contradiction; reflexivity. Qed.
+
+Lemma valid_plain_item fv k it y : plain_item k it -> valid (S fv) it y = item_spec k y.
 Proof.
-  intros (c & it & -> & Ht & Hr & He & _ & Hit) H. cbn [Gen.gen s_con s_any_of s_all_of s_items] in H. rewrite He, Hr, Ht in H. unfold determine_type in H. rewrite Ht in H. cbn in H.
-  destruct f as [|f]; [discriminate|]. rewrite (gen_str_leaf idf cf defs f self _ it (plain_str_is_leaf it Hit)) in H. cbn in H. inversion H. split; reflexivity.
+  intros (c & -> & Hr & He & _ & Hf & Hmn & Hmx & Hp & Hm & Hb & Ht). cbn [Valid.valid s_con s_all_of s_any_of]. rewrite Hr, Ht, He. cbn [type_ok existsb forallb].
+  destruct k, y; cbn [type_matches orb andb item_spec]; try reflexivity.
+  - rewrite Hmn, Hmx, Hp, Hf. reflexivity.
+  - rewrite Hm, Hb. reflexivity.
 Qed.
 
-Lemma valid_plain_str fv it y : plain_str it -> valid (S fv) it y = match y with JStr _ => true | _ => false end.
-Proof.
-  intros (c & -> & Ht & Hr & He & _ & Hf & Hmn & Hmx & Hp). cbn [Valid.valid s_con s_all_of s_any_of]. rewrite Hr, Ht, He. cbn [type_ok existsb forallb].
-  destruct y; cbn [type_matches orb andb]; try reflexivity. rewrite Hmn, Hmx, Hp, Hf. reflexivity.
-Qed.
-
-Lemma valid_arr_leaf fv p x : arr_leaf p -> valid (S (S fv)) p x =
+Lemma valid_arr_leaf fv k p x : arr_leaf_k k p -> valid (S (S fv)) p x =
   match x with
-  | JArr l => len_ok (c_min_items (s_con p)) (c_max_items (s_con p)) (length l) && forallb (fun y => match y with JStr _ => true | _ => false end) l
+  | JArr l => len_ok (c_min_items (s_con p)) (c_max_items (s_con p)) (length l) && forallb (item_spec k) l
   | _ => false
   end.
 Proof.
   intros (c & it & -> & Ht & Hr & He & _ & Hit). set (g := S fv). cbn [Valid.valid s_con s_all_of s_any_of s_items]. rewrite Hr, Ht, He. cbn [type_ok existsb forallb].
   destruct x; cbn [type_matches orb andb]; try reflexivity. rewrite ?andb_true_r, ?orb_false_r. cbn [andb]. f_equal.
-  apply forallb_ext_in. intros y _. exact (valid_plain_str fv it y Hit).
+  apply forallb_ext_in. intros y _. exact (valid_plain_item fv k it y Hit).
 Qed.
 
-Lemma dec_tstring fd y : dec (S fd) TString y = match y with JStr s0 => Ok (GS s0) | JNull => Ok (GS []) | _ => Err end.
-Proof. reflexivity. Qed.
-
-Lemma omap_strings fd l : (forall y, In y l -> y <> JNull) ->
-  match omap (dec (S fd) TString) l with
-  | Ok vs => forallb (fun y => match y with JStr _ => true | _ => false end) l = true /\ length vs = length l /\ forallb (slice_shaped 0) vs = true
-  | Err => forallb (fun y => match y with JStr _ => true | _ => false end) l = false
+Lemma omap_items fd k l : (forall y, In y l -> y <> JNull) ->
+  match omap (dec (S fd) (item_go k)) l with
+  | Ok vs => forallb (item_spec k) l = true /\ length vs = length l /\ forallb (slice_shaped 0) vs = true
+  | Err => forallb (item_spec k) l = false
   | _ => False
   end.
 Proof.
   induction l as [|y r IH]; intros Hn; [cbn [omap forallb length]; repeat split; reflexivity|].
   assert (Hy : y <> JNull) by (apply Hn; left; reflexivity).
   specialize (IH (fun z Hz => Hn z (or_intror Hz))).
-  cbn [omap]. rewrite dec_tstring.
-  destruct y; try contradiction; cbn [obind forallb andb]; try reflexivity.
-  destruct (omap (dec (S fd) TString) r) as [vs| | |]; cbn [obind]; try exact IH.
-  destruct IH as (H1 & H2 & H3). cbn [length forallb slice_shaped andb]. split; [exact H1|split; [f_equal; exact H2|exact H3]].
+  cbn [omap]. rewrite (dec_item fd k y Hy).
+  destruct k, y; try contradiction; cbn [obind forallb andb item_spec]; try reflexivity;
+    (destruct (omap (dec (S fd) _) r) as [vs| | |]; cbn [obind]; try exact IH;
+     destruct IH as (H1 & H2 & H3); cbn [length forallb slice_shaped andb]; (split; [exact H1|split; [f_equal; exact H2|exact H3]])).
 Qed.
 
-Lemma dec_tslice fd x : dec (S (S fd)) (TSlice true TString) x =
-  match x with JNull => Ok GNil | JArr l => obind (omap (dec (S fd) TString) l) (fun vs => Ok (GL vs)) | _ => Err end.
+Lemma dec_tslice fd k x : dec (S (S fd)) (TSlice true (item_go k)) x =
+  match x with JNull => Ok GNil | JArr l => obind (omap (dec (S fd) (item_go k)) l) (fun vs => Ok (GL vs)) | _ => Err end.
 Proof. reflexivity. Qed.
 
-Lemma arr_field fd fv c self fname k p kv :
-  arr_leaf p -> fname <> [] ->
+Lemma item_go_not_slice k : match item_go k with TSlice _ _ | TNullT => False | _ => True end.
+Proof. destruct k; exact I. Qed.
+
+Lemma array_validators_item fname jn mn mx k :
+  array_validators fname jn mn mx 1 (TSlice true (item_go k)) = if negb (mn =? 0) || negb (mx =? 0) then [VArray fname jn 1 mn mx] else [].
+Proof. destruct k; cbn [array_validators item_go]; rewrite app_nil_r; reflexivity. Qed.
+
+Lemma arr_field fd fv c self fname k ik p kv :
+  arr_leaf_k ik p -> fname <> [] ->
   match lookup k kv with
   | Some x => x <> JNull -> arr_value x ->
-      field_ok (dec (S (S fd))) zero (default_val env dv_fuel) kv (pair_of (make_field defs c self fname k p (TSlice true TString) (c_bounds (s_con p)))) = valid (S (S fv)) p x
+      field_ok (dec (S (S fd))) zero (default_val env dv_fuel) kv (pair_of (make_field defs c self fname k p (TSlice true (item_go ik)) (c_bounds (s_con p)))) = valid (S (S fv)) p x
   | None => mem k (c_required c) = false ->
-      field_ok (dec (S (S fd))) zero (default_val env dv_fuel) kv (pair_of (make_field defs c self fname k p (TSlice true TString) (c_bounds (s_con p)))) = true
+      field_ok (dec (S (S fd))) zero (default_val env dv_fuel) kv (pair_of (make_field defs c self fname k p (TSlice true (item_go ik)) (c_bounds (s_con p)))) = true
   end.
 Proof.
   intros Hleaf Hn.
   assert (Hsingle : forall v, get_plain fname (GSt [(fname, v)]) = Some v).
   { intros v. destruct fname as [|c0 n0]; [contradiction|]. cbn [get_plain lookup]. rewrite str_eqb_refl. reflexivity. }
   destruct (lookup k kv) as [x|] eqn:Hl.
-  - intros Hnull Harr. rewrite (valid_arr_leaf fv p x Hleaf). destruct Hleaf as (pc & it & -> & Ht & Hr & He & Hd & Hit). unfold make_field, pair_of. cbn [s_con]. rewrite Hd.
-    assert (Hcore : forall fl vs0, f_json fl = k -> f_ty fl = TSlice true TString -> f_name fl = fname ->
-              vs0 = array_validators fname k (c_min_items pc) (c_max_items pc) 1 (TSlice true TString) ->
+  - intros Hnull Harr. rewrite (valid_arr_leaf fv ik p x Hleaf). destruct Hleaf as (pc & it & -> & Ht & Hr & He & Hd & Hit). unfold make_field, pair_of. cbn [s_con]. rewrite Hd.
+    assert (Hcore : forall fl vs0, f_json fl = k -> f_ty fl = TSlice true (item_go ik) -> f_name fl = fname ->
+              vs0 = array_validators fname k (c_min_items pc) (c_max_items pc) 1 (TSlice true (item_go ik)) ->
               field_ok (dec (S (S fd))) zero (default_val env dv_fuel) kv (fl, vs0) =
               match x with
-              | JArr l => len_ok (c_min_items pc) (c_max_items pc) (length l) && forallb (fun y => match y with JStr _ => true | _ => false end) l
+              | JArr l => len_ok (c_min_items pc) (c_max_items pc) (length l) && forallb (item_spec ik) l
               | _ => false
               end).
     { intros fl vs0 Hj Hty Hnm ->. unfold field_ok. cbn [fst snd]. rewrite Hj, Hty, Hnm, Hl, dec_tslice.
       destruct x as [| | | |l|]; try contradiction; try reflexivity.
-      pose proof (omap_strings fd l (Harr l eq_refl)) as Ho.
-      destruct (omap (dec (S fd) TString) l) as [vs| | |]; cbn [obind]; try contradiction.
-      + destruct Ho as (H1 & H2 & H3). rewrite H1, andb_true_r. cbn [array_validators].
-        destruct (negb (c_min_items pc =? 0) || negb (c_max_items pc =? 0)) eqn:Ek; cbn [app].
+      pose proof (omap_items fd ik l (Harr l eq_refl)) as Ho.
+      destruct (omap (dec (S fd) (item_go ik)) l) as [vs| | |]; cbn [obind]; try contradiction.
+      + destruct Ho as (H1 & H2 & H3). rewrite H1, andb_true_r, array_validators_item.
+        destruct (negb (c_min_items pc =? 0) || negb (c_max_items pc =? 0)) eqn:Ek.
         * unfold value_checks. cbn [forallb].
           rewrite (varray_value (default_val env dv_fuel) None _ fname k 1 _ _ (GL vs) ltac:(discriminate) (Hsingle _)) by (cbn [slice_shaped]; exact H3).
           cbn [levels_ok]. rewrite H2, andb_true_r. destruct (len_ok _ _ _); reflexivity.
@@ -151,8 +161,8 @@ Proof.
     + apply Hcore; reflexivity.
     + cbn [nillable_ty]. apply Hcore; reflexivity.
   - intros Hm. destruct Hleaf as (pc & it & -> & Ht & Hr & He & Hd & Hit). unfold make_field, pair_of. cbn [s_con]. rewrite Hd, Hm. cbn [nillable_ty].
-    unfold field_ok. cbn [fst snd f_json f_ty f_name]. rewrite Hl. cbn [zero field_validators array_validators].
-    destruct (negb (c_min_items pc =? 0) || negb (c_max_items pc =? 0)); cbn [app]; [|reflexivity]. unfold value_checks. cbn [forallb].
+    unfold field_ok. cbn [fst snd f_json f_ty f_name]. rewrite Hl. cbn [zero field_validators]. rewrite array_validators_item.
+    destruct (negb (c_min_items pc =? 0) || negb (c_max_items pc =? 0)); [|reflexivity]. unfold value_checks. cbn [forallb].
     rewrite (varray_nil (default_val env dv_fuel) None _ fname k 1 _ _ ltac:(discriminate) (Hsingle _)). reflexivity.
 Qed.
 
@@ -289,6 +299,20 @@ Proof.
   unfold field_ok. cbn [fst snd f_json f_ty f_name field_validators]. rewrite Hl. reflexivity.
 Qed.
 
+Lemma gen_plain_item f self sc k it : plain_item k it -> gen (S f) MInline self false it sc = Done (item_go k, c_bounds (s_con it)).
+Proof.
+  intros (c & -> & Hr & He & Hd & Hf & Hmn & Hmx & Hp & Hm & Hb & Ht). destruct k.
+  - apply (gen_str_leaf idf cf defs f self sc). exists c. repeat split; assumption.
+  - apply (gen_num_leaf f self sc). exists c. repeat split; assumption.
+  - apply (gen_bool_leaf idf cf defs f self sc). exists c. repeat split; assumption.
+Qed.
+
+Lemma gen_arr_leaf f self sc k p ty bp : arr_leaf_k k p -> gen (S f) MInline self false p sc = Done (ty, bp) -> ty = TSlice true (item_go k) /\ bp = c_bounds (s_con p).
+Proof.
+  intros (c & it & -> & Ht & Hr & He & _ & Hit) H. cbn [Gen.gen s_con s_any_of s_all_of s_items] in H. rewrite He, Hr, Ht in H. unfold determine_type in H. rewrite Ht in H. cbn in H.
+  destruct f as [|f]; [discriminate|]. rewrite (gen_plain_item f self _ k it Hit) in H. cbn in H. inversion H. split; reflexivity.
+Qed.
+
 Lemma dec_tenum fd sc es x : dec (S (S fd)) (TEnum sc TString false es) x =
   obind (dec (S fd) TString x) (fun v => if existsb (enum_eq TString v) es then Ok v else Err).
 Proof. reflexivity. Qed.
@@ -325,7 +349,7 @@ Proof.
   - destruct Hl as (c & m & -> & _ & _ & _ & Hd & _); exact Hd.
   - destruct Hl as (c & -> & _ & _ & _ & Hd); exact Hd.
   - destruct Hl as (c & -> & _ & _ & _ & Hd & _); exact Hd.
-  - destruct Hl as (c & it & -> & _ & _ & _ & Hd & _); exact Hd.
+  - destruct Hl as (ik & c & it & -> & _ & _ & _ & Hd & _); exact Hd.
   - destruct Hl as (c & vs & -> & _ & _ & _ & _ & Hd & _); exact Hd.
 Qed.
 
@@ -384,8 +408,8 @@ Proof.
       destruct (lookup k kv) as [x|] eqn:El.
       * destruct (Hval k p x Hinp El) as [Hnn _]. exact (Hb Hnn).
       * exact Hb.
-    + destruct (gen_arr_leaf f self _ p ty bp Hl Hgen) as [-> ->].
-      pose proof (arr_field (S fd) fv (s_con s) self fname k p kv Hl Hfn) as Hb.
+    + pose proof Hl as [ik Hlk]. destruct (gen_arr_leaf f self _ ik p ty bp Hlk Hgen) as [-> ->].
+      pose proof (arr_field (S fd) fv (s_con s) self fname k ik p kv Hlk Hfn) as Hb.
       destruct (lookup k kv) as [x|] eqn:El.
       * destruct (Hval k p x Hinp El) as [Hnn [_ [_ Har]]]. exact (Hb Hnn (Har Hl)).
       * exact Hb.
@@ -448,7 +472,7 @@ Proof. destruct n; cbn [sobj]; intros (Pp & Pty & Pa & _); (split; [exact Pp|spl
 Lemma leaf_not_object p : leaf p -> c_types (s_con p) = [SObject] -> False.
 Proof.
   intros [Hl|[Hl|[Hl|[Hl|[Hl|Hl]]]]] Pty;
-    [destruct Hl as (c0 & -> & Ht & _)|destruct Hl as (c0 & m0 & -> & Ht & _)|destruct Hl as (c0 & -> & Ht & _)|destruct Hl as (c0 & -> & Ht & _)|destruct Hl as (c0 & it0 & -> & Ht & _)
+    [destruct Hl as (c0 & -> & Ht & _)|destruct Hl as (c0 & m0 & -> & Ht & _)|destruct Hl as (c0 & -> & Ht & _)|destruct Hl as (c0 & -> & Ht & _)|destruct Hl as (ik0 & c0 & it0 & -> & Ht & _)
     |destruct Hl as (c0 & vs0 & -> & Ht & _)];
     cbn [s_con] in Pty; rewrite Ht in Pty; discriminate.
 Qed.
@@ -457,7 +481,7 @@ Lemma leaf_not_ref p x : leaf p -> ref_prop p x -> False.
 Proof.
   intros Hl (c & E & Hr & _). subst p.
   destruct Hl as [Hl|[Hl|[Hl|[Hl|[Hl|Hl]]]]];
-    [destruct Hl as (c0 & E & _ & Hr0 & _)|destruct Hl as (c0 & m0 & E & _ & Hr0 & _)|destruct Hl as (c0 & E & _ & Hr0 & _)|destruct Hl as (c0 & E & _ & Hr0 & _)|destruct Hl as (c0 & it0 & E & _ & Hr0 & _)
+    [destruct Hl as (c0 & E & _ & Hr0 & _)|destruct Hl as (c0 & m0 & E & _ & Hr0 & _)|destruct Hl as (c0 & E & _ & Hr0 & _)|destruct Hl as (c0 & E & _ & Hr0 & _)|destruct Hl as (ik0 & c0 & it0 & E & _ & Hr0 & _)
     |destruct Hl as (c0 & vs0 & E & _ & Hr0 & _)];
     inversion E; subst; congruence.
 Qed.
@@ -576,7 +600,7 @@ Proof.
   { intros k p Hin (c & m & E & Ht & _). subst p. unfold ex_outer, ex_inner, LevelP.ex_schema, ex_leaf in Hin. cbn [s_props] in Hin.
     destruct Hin as [[Hin|[Hin|[]]]|[Hin|[Hin|[]]]]; inversion Hin; subst; discriminate. }
   assert (Hnoarr : forall k p, In (k, p) (s_props ex_outer) \/ In (k, p) (s_props ex_inner) -> ~ arr_leaf p).
-  { intros k p Hin (c & it & E & Ht & _). subst p. unfold ex_outer, ex_inner, LevelP.ex_schema, ex_leaf in Hin. cbn [s_props] in Hin.
+  { intros k p Hin (ik & c & it & E & Ht & _). subst p. unfold ex_outer, ex_inner, LevelP.ex_schema, ex_leaf in Hin. cbn [s_props] in Hin.
     destruct Hin as [[Hin|[Hin|[]]]|[Hin|[Hin|[]]]]; inversion Hin. }
   intros Nk H. cbn [dok]. split; [exact Nk|]. intros k p x Hin Hl. destruct (H k x Hl) as (H1 & H2 & H3).
   split; [exact H1|]. split; [intros _; exact H2|]. split; [intros Hi; exfalso; exact (Hnoint k p (or_introl Hin) Hi)|].
@@ -631,7 +655,7 @@ Proof.
   - vm_compute. repeat constructor; cbn; intuition discriminate.
   - intros fname kp H. vm_compute in H. destruct H as [H|[H|[]]]; inversion H; subst; discriminate.
   - intros k p [H|[H|[]]]; inversion H; subst; left.
-    + right. right. right. right. left. exists (mkC [SArray] None None [] 1 2 0 0 None None (mkBounds None None None None) None None), ex_str_item.
+    + right. right. right. right. left. exists IStr, (mkC [SArray] None None [] 1 2 0 0 None None (mkBounds None None None None) None None), ex_str_item.
       repeat split; try reflexivity. eexists. repeat split; reflexivity.
     + right. right. right. left. eexists. repeat split; reflexivity.
 Qed.
@@ -715,13 +739,13 @@ Proof.
     assert (Hp : p' = ex_leaf 2 0 None \/ p' = ex_leaf 0 3 None) by (destruct Hin' as [Hin'|[Hin'|[]]]; inversion Hin'; auto).
     split; [exact G1|]. split; [intros _; exact G2|]. split.
     - intros (c & m & E & Ht & _). destruct Hp as [-> | ->]; inversion E; subst c; discriminate.
-    - split; [|exact I]. intros (c & it & E & _). destruct Hp as [-> | ->]; inversion E. }
+    - split; [|exact I]. intros (ik & c & it & E & _). destruct Hp as [-> | ->]; inversion E. }
   intros Nk H. cbn [dok]. split; [exact Nk|]. intros k p x Hin Hl. destruct (H k x Hl) as (H1 & H2 & H3).
   assert (Hp : p = ex_refp \/ p = ex_leaf 0 3 None) by (destruct Hin as [Hin|[Hin|[]]]; inversion Hin; auto).
   split; [exact H1|]. split; [intros _; exact H2|]. split.
   - intros (c & m & E & Ht & _). destruct Hp as [-> | ->]; inversion E; subst c; discriminate.
   - split.
-    + intros (c & it & E & _). destruct Hp as [-> | ->]; inversion E.
+    + intros (ik & c & it & E & _). destruct Hp as [-> | ->]; inversion E.
     + intros kv' ->. destruct (H3 kv' eq_refl) as [Nk' H']. split.
       * intros Hs. exfalso. destruct Hs as (_ & Hty & _). destruct Hp as [-> | ->]; discriminate.
       * intros y d _ Hld. destruct Hp as [-> | ->].
@@ -787,5 +811,5 @@ Proof.
   split; [destruct Hkv as [<-|[<-|[<-|[<-|[]]]]]; vm_compute in Hl; inversion Hl; discriminate|].
   split; [intros (c & E & _ & _ & He & _); inversion E; subst c; discriminate|].
   split; [intros (c & m & E & Ht & _); inversion E; subst c; discriminate|].
-  split; [intros (c & it & E & _); inversion E|exact I].
+  split; [intros (ik & c & it & E & _); inversion E|exact I].
 Qed.
